@@ -634,3 +634,27 @@ Proof.
   cbn [step fst epoch_ends s_tasks with_epochs].
   exact (hook_stats2 (run e st0 ops) au ou id num Hinv' Hsig' K t HK).
 Qed.
+
+(* ---- the self USD value: the code's truncating closed form never over-states the exact rational value ---- *)
+Lemma usd_trunc_sound amount price d m : 0 <= amount -> 0 <= price -> 0 <= d ->
+  m * P <= usd_trunc amount price d -> m * 10 ^ d <= amount * price.
+Proof.
+  intros Ha Hp Hd H. unfold usd_trunc in H.
+  assert (HT : 0 < 10 ^ d) by (apply Z.pow_pos_nonneg; lia).
+  assert (HP : 0 < P) by apply P_pos.
+  rewrite Z.quot_div_nonneg in H by nia.
+  assert (H2 : 10 ^ d * (amount * price * P / 10 ^ d) <= amount * price * P) by (apply Z.mul_div_le; lia).
+  nia.
+Qed.
+
+(* and it is within one unit of the 18th decimal of it: floor *)
+Lemma usd_trunc_floor amount price d : 0 <= amount -> 0 <= price -> 0 <= d ->
+  usd_trunc amount price d * 10 ^ d <= amount * price * P < (usd_trunc amount price d + 1) * 10 ^ d.
+Proof.
+  intros Ha Hp Hd. unfold usd_trunc.
+  assert (HT : 0 < 10 ^ d) by (apply Z.pow_pos_nonneg; lia).
+  assert (HP : 0 < P) by apply P_pos.
+  rewrite Z.quot_div_nonneg by nia.
+  pose proof (Z.div_mod (amount * price * P) (10 ^ d)) as E.
+  pose proof (Z.mod_pos_bound (amount * price * P) (10 ^ d) HT). nia.
+Qed.
